@@ -354,6 +354,35 @@ let regdec (k : toks) : string =
   | Panic s -> fmt_panic s
   | _ -> "hang"
 
+(* the hand-written loop over unwind_frame (oracle side of C17), arch-generic glue *)
+let manual_loop (uf : 'c -> faddr -> 'r -> ('ru, 'r) outcome) (pc : n) (rg : 'r) (c : 'c) (cnt : int)
+  : string list * 'c =
+  let out = ref [] in
+  let addr = ref (IP pc) in
+  let regs = ref rg in
+  let cache = ref c in
+  let fin = ref false in
+  let stop = ref false in
+  for i = 0 to cnt - 1 do
+    if !stop then ()
+    else if i = 0 then out := ("ok ip " ^ hex pc) :: !out
+    else if !fin then out := "ok none" :: !out
+    else begin
+      let o = uf !cache !addr !regs in
+      regs := o.o_regs;
+      cache := o.o_cache;
+      match o.o_res with
+      | Ok (Some ra) ->
+        if ra = N0 then out := "err ReturnAddressIsNull" :: !out
+        else begin addr := RA ra; out := ("ok ra " ^ hex ra) :: !out end
+      | Ok None -> fin := true; out := "ok none" :: !out
+      | Err e -> out := fmt_err e :: !out
+      | Panic s -> out := fmt_panic s :: !out; stop := true
+      | Hang -> out := "hang" :: !out; stop := true
+    end
+  done;
+  (List.rev !out, !cache)
+
 let run_x86 (lines : string list) : unit =
   let w = ref (world0 N0) in
   let mods : (string, xmodule) Hashtbl.t = Hashtbl.create 16 in
@@ -447,6 +476,20 @@ let run_x86 (lines : string list) : unit =
                  | (Hang as p) :: _ -> [ p ]
                  | x :: t -> x :: cut t in
                "iter " ^ String.concat " | " (List.map fmt_fres (cut rs))
+             | _ -> "bad")
+          | "manual" ->
+            let u = id_of ("u:" ^ next k) in
+            let c = id_of ("c:" ^ next k) in
+            let pc = nx k in
+            let rg = parse_regs_x86 k in
+            let memid = next k in
+            let cnt = ix k in
+            (match !w.unws u, !w.caches c, Hashtbl.find_opt mems memid with
+             | Some uw, Some ca, Some m ->
+               let outl, ca' = manual_loop (fun c a r -> unwind_frame_x uw c a r m) pc rg ca cnt in
+               let ww = !w in
+               w := { ww with caches = upd ww.caches c ca' };
+               "iter " ^ String.concat " | " outl
              | _ -> "bad")
           | "exec" ->
             let ru = parse_rule_x86 k in
@@ -559,6 +602,20 @@ let run_a64 (lines : string list) : unit =
                  | (Hang as p) :: _ -> [ p ]
                  | x :: t -> x :: cut t in
                "iter " ^ String.concat " | " (List.map fmt_fres (cut rs))
+             | _ -> "bad")
+          | "manual" ->
+            let u = id_of ("u:" ^ next k) in
+            let c = id_of ("c:" ^ next k) in
+            let pc = nx k in
+            let rg = parse_regs_a64 k in
+            let memid = next k in
+            let cnt = ix k in
+            (match !w.unws u, !w.caches c, Hashtbl.find_opt mems memid with
+             | Some uw, Some ca, Some m ->
+               let outl, ca' = manual_loop (fun c a r -> unwind_frame_a uw c a r m) pc rg ca cnt in
+               let ww = !w in
+               w := { ww with caches = upd ww.caches c ca' };
+               "iter " ^ String.concat " | " outl
              | _ -> "bad")
           | "exec" ->
             let ru = parse_rule_a64 k in
